@@ -15,15 +15,18 @@ TYPEMAP = {V: ExpressionType.VALUE, L: ExpressionType.LOGICAL, N: ExpressionType
 
 def sig(nodes):
     """Observable identity of a nodelist: locations and the identity of each value object."""
-    return [(tuple(n.location), id(n.value)) for n in nodes]
+    # read back to front: nothing may depend on the order in which a caller looks at the nodes
+    out = [None] * len(nodes)
+    for i in range(len(nodes) - 1, -1, -1):
+        out[i] = (tuple(nodes[i].location), id(nodes[i].value))
+    return out
 
 
 def want_sig(pairs):
     return [(tuple(l), id(v)) for l, v in pairs]
 
 
-def observe(fn, *args):
-    """Call-and-return/raise record at the API boundary."""
+def _plain(fn, args):
     try:
         r = fn(*args)
         return ("ok", r)
@@ -33,6 +36,183 @@ def observe(fn, *args):
         return ("exc", e)
     except Exception as e:  # noqa: BLE001
         return ("exc", e)
+
+
+# --- host conditions ------------------------------------------------------------------------------------------------
+# The same call must mean the same thing whatever the host application does around it. With small seeded probabilities a
+# call observed through observe() is therefore made (a) from a fresh non-main thread, (b) from a deep call stack
+# (possibly with a raised recursion limit), and (c) a compiled query it returns is replaced by a deep copy / pickle
+# round trip of itself. None of this changes what the callers expect: they compare the outcome with their oracle as
+# usual. Running out of interpreter stack under (b) is a host limit, not an outcome: the call is then repeated plainly.
+HOST = {"rng": None, "p_thread": 0.0, "p_deep": 0.0, "p_copy": 0.0, "busy": False, "counts": {}, "last": None, "force": None}
+DEPTHS = [300, 600, 750, 850, 900, 930, 950, 965]
+
+
+def host_init(seed, p_thread=0.01, p_deep=0.01, p_copy=0.01):
+    HOST.update(rng=random.Random("host|%s" % (seed,)), p_thread=p_thread, p_deep=p_deep, p_copy=p_copy, busy=False, counts={})
+
+
+def _count(k):
+    HOST["counts"][k] = HOST["counts"].get(k, 0) + 1
+
+
+def in_thread(fn, args=(), stack_mb=None):
+    """Outcome of fn(*args) executed in a fresh non-main thread."""
+    import threading
+    box = []
+    old = None
+    if stack_mb:
+        old = threading.stack_size(stack_mb * 1024 * 1024)
+    try:
+        t = threading.Thread(target=lambda: box.append(_plain(fn, args)), daemon=True)
+        t.start()
+    finally:
+        if stack_mb:
+            threading.stack_size(old)
+    t.join()
+    return box[0] if box else ("exc", RuntimeError("thread produced no outcome"))
+
+
+def _descend(n, fn, args):
+    if n <= 0:
+        return _plain(fn, args)
+    return _descend(n - 1, fn, args)
+
+
+def at_depth(fn, args=(), depth=900, limit=None):
+    """Outcome of fn(*args) called from `depth` additional frames; limit = recursion limit to set meanwhile (in a
+    thread with a large stack). ("ran-out", exc) when the interpreter stack was exhausted."""
+    import sys
+    if limit is None:
+        try:
+            o = _descend(depth, fn, args)
+        except RecursionError as e:   # raised by the descent itself
+            return ("ran-out", e)
+    else:
+        def work():
+            old = sys.getrecursionlimit()
+            sys.setrecursionlimit(limit)
+            try:
+                try:
+                    return _descend(depth, fn, args)
+                except RecursionError as e:
+                    return ("ran-out", e)
+            finally:
+                sys.setrecursionlimit(old)
+        o = in_thread(work, (), stack_mb=512)
+        if o[0] == "ok":
+            o = o[1]
+        elif o[0] == "exc" and isinstance(o[1], RecursionError):
+            return ("ran-out", o[1])
+    if o[0] == "exc" and isinstance(o[1], (RecursionError, MemoryError)):
+        return ("ran-out", o[1])
+    return o
+
+
+def _maybe_copy(o, how=None):
+    if o[0] != "ok" or type(o[1]).__name__ != "JSONPathQuery":
+        return o
+    import copy
+    import pickle
+    how = how or HOST["rng"].choice(["deepcopy", "pickle"])
+    HOST["last"] = ("compiled query replaced by its copy", how)
+    try:
+        c = copy.deepcopy(o[1]) if how == "deepcopy" else pickle.loads(pickle.dumps(o[1]))
+    except Exception:  # noqa: BLE001
+        _count("host:copy-of-compiled-query-not-possible:" + how)
+        return o
+    _count("host:compiled-query-replaced-by-" + how)
+    return ("ok", c)
+
+
+class forced:
+    """Context manager: every observe() inside applies the given host condition (used to reproduce / minimise a witness)."""
+
+    def __init__(self, cond):
+        self.cond = cond
+
+    def __enter__(self):
+        self.old = HOST["force"]
+        HOST["force"] = self.cond
+        return self
+
+    def __exit__(self, *a):
+        HOST["force"] = self.old
+        return False
+
+
+def _forced(cond, fn, args):
+    if cond[0] == "called from another thread":
+        return in_thread(fn, args)
+    if cond[0] == "called from a deep stack":
+        o = at_depth(fn, args, depth=cond[1], limit=cond[2])
+        if o[0] == "ran-out":
+            o2 = _plain(fn, args)
+            if cond[2] is not None and not (o2[0] == "exc" and isinstance(o2[1], RecursionError)):
+                return ("exc", o[1])
+            return o2
+        return o
+    return _copy_mode(fn, args, cond[1])
+
+
+def _copy_mode(fn, args, how):
+    """compile() results are replaced by a copy of themselves; find/finditer/find_one given a query TEXT are carried out as
+    compile -> copy -> the same method of the copy (the documented meaning of those entry points)."""
+    owner = getattr(fn, "__self__", None)
+    name = getattr(fn, "__name__", "")
+    if name in ("find", "finditer", "find_one") and len(args) == 2 and isinstance(args[0], str) and hasattr(owner, "compile"):
+        def via_copy():
+            c = _maybe_copy(("ok", owner.compile(args[0])), how)[1]
+            return getattr(c, name)(args[1])
+        return _plain(via_copy, ())
+    return _maybe_copy(_plain(fn, args), how)
+
+
+def observe(fn, *args):
+    """Call-and-return/raise record at the API boundary (see 'host conditions' above)."""
+    h = HOST
+    if h["busy"]:
+        return _plain(fn, args)
+    if h["force"] is not None:
+        h["busy"] = True
+        try:
+            return _forced(h["force"], fn, args)
+        finally:
+            h["busy"] = False
+    h["last"] = None
+    if h["rng"] is None:
+        return _plain(fn, args)
+    r = h["rng"].random()
+    if r >= h["p_thread"] + h["p_deep"] + h["p_copy"]:
+        return _plain(fn, args)
+    h["busy"] = True
+    try:
+        if r < h["p_thread"]:
+            _count("host:called-from-another-thread")
+            h["last"] = ("called from another thread",)
+            return in_thread(fn, args)
+        if r < h["p_thread"] + h["p_deep"]:
+            if h["rng"].random() < 0.15:
+                d_, l_ = h["rng"].choice([3000, 6000, 12000]), h["rng"].choice([20000, 50000])
+                tag = "host:called-from-deep-stack-with-raised-limit"
+            else:
+                d_, l_ = h["rng"].choice(DEPTHS), None
+                tag = "host:called-from-deep-stack"
+            o = at_depth(fn, args, depth=d_, limit=l_)
+            if o[0] == "ran-out":
+                _count(tag + ":ran-out-of-stack(repeated plainly)")
+                o2 = _plain(fn, args)
+                if l_ is not None and not (o2[0] == "exc" and isinstance(o2[1], RecursionError)):
+                    # thousands of frames of head-room were not enough for a call that succeeds plainly within 1000
+                    h["last"] = ("called from a deep stack", d_, l_)
+                    return ("exc", o[1])
+                return o2
+            _count(tag)
+            h["last"] = ("called from a deep stack", d_, l_)
+            return o
+        return _copy_mode(fn, args, None)
+    finally:
+        h["busy"] = False
 
 
 def describe_outcome(o):
